@@ -2,7 +2,7 @@
    taint / side-effect analysis over the SSA execution semantics of Spec.SsaEffects. *)
 From Coq Require Import ZArith NArith List Bool Relations Lia.
 Require Import Model.Base Model.Ir Model.VarUse Model.Taint Model.SideEffect
-  Spec.NiSpec Spec.SsaEffects Proofs.TaintProofs.
+  Spec.NiSpec Spec.SsaEffects Spec.CtlDep Proofs.TaintProofs.
 Import ListNotations.
 
 (* ------------------------------------------------------------------ *)
@@ -311,7 +311,26 @@ Section Instance.
 
   (* ---------------- the model's sinks cover the required sinks ---------------- *)
 
-  Hypothesis Hment : ment_sound g ment.
+  (* the names tainted by an input/output signal are closed under data dependence *)
+  Lemma ddep_closed es : exported_sinks g (t_edges (run_taint_analysis g br)) = Ok es ->
+    forall a b, In a es -> ddep g a b -> In b es.
+  Proof.
+    intros Hes a b Ha Hab. unfold exported_sinks in Hes. apply bind_Ok in Hes. destruct Hes as [l [Hl H]]. injection H as <-.
+    apply in_concat in Ha. destruct Ha as [r [Hr Ha]].
+    destruct (mapM_Ok_In_rev _ _ _ Hl _ Hr) as [sig [_ Hsig]].
+    apply in_concat. exists r. split; [assumption|].
+    apply (taint_closure_exact _ _ _ Hsig). eapply rt_trans; [apply (taint_closure_exact _ _ _ Hsig); exact Ha|].
+    apply rt_step. apply ddep_taint. assumption.
+  Qed.
+
+  (* [dep]: the notion of dependence by which a constraint "mentions" an input/output signal. All that is
+     needed of it: the set of names the analysis finds tainted by an input/output signal is closed under it.
+     Instances: data dependence (ddep_closed, no condition on the branch regions) and information flow
+     = data + control dependence (Spec.CtlDep.idep, under the decidable hypothesis ctl_closed_b). *)
+  Variable dep : vname -> vname -> Prop.
+  Hypothesis Hdep : forall es, exported_sinks g (t_edges (run_taint_analysis g br)) = Ok es ->
+                    forall a b, In a es -> dep a b -> In b es.
+  Hypothesis Hment : ment_sound_by g dep ment.
   Hypothesis Hwf : exported_targets_declared g = true.
 
   Variable snk : list vname.
@@ -362,18 +381,21 @@ Section Instance.
   Qed.
 
   Lemma constraint_stmt_all_sinks blk s :
-    In blk (c_blocks g) -> In s (b_stmts blk) -> is_constraint_stmt s = true -> mentions g s ->
+    In blk (c_blocks g) -> In s (b_stmts blk) -> is_constraint_stmt s = true -> mentions_by g dep s ->
     forall n, In n (stmt_used D s) -> In n snk.
   Proof.
     intros Hblk Hs Hk (n0 & sig & Hn0 & Hsig & Hreach) n Hn.
     destruct sinks_parts as (es & parts & Hes & Hparts & ->).
     (* n0 is tainted by an exported signal *)
     assert (Hn0es : In n0 es).
-    { unfold exported_sinks in Hes. apply bind_Ok in Hes. destruct Hes as [l [Hl H]]. injection H as <-.
-      destruct (mapM_Ok_In _ _ _ Hl sig (exported_In sig Hsig)) as [r [Hr Hin]].
-      apply in_concat. exists r. split; [assumption|].
-      apply (taint_closure_exact _ _ _ Hr). eapply clos_rt_mono; [|exact Hreach].
-      intros a b Hab. apply ddep_taint. assumption. }
+    { assert (Hsig_es : In sig es).
+      { unfold exported_sinks in Hes. apply bind_Ok in Hes. destruct Hes as [l [Hl H]]. injection H as <-.
+        destruct (mapM_Ok_In _ _ _ Hl sig (exported_In sig Hsig)) as [r [Hr Hin]].
+        apply in_concat. exists r. split; [assumption|].
+        apply (taint_closure_exact _ _ _ Hr). apply rt_refl. }
+      assert (Hcl : forall a z, clos_refl_trans_1n vname dep a z -> In a es -> In z es).
+      { intros a z H. induction H as [|a b c Hab _ IH]; intro Ha; [assumption|]. apply IH. eapply Hdep; eassumption. }
+      eapply Hcl; [apply clos_rt_rt1n; exact Hreach | exact Hsig_es]. }
     destruct (vname_eq_dec n n0) as [->|Hne].
     - (* the name itself: the clause added by the repair *)
       apply in_or_app; right. apply in_or_app; right. apply in_or_app; right.
@@ -477,6 +499,42 @@ Proof.
   apply existsb_exists. exists s. split; [assumption | apply vmem_In; assumption].
 Qed.
 
+Theorem noninterference_of_claims_by
+  (V : Type) (sem_num : Z -> V) (sem_infix : infix_op -> V -> V -> V) (sem_prefix : prefix_op -> V -> V)
+  (sem_switch : V -> V -> V -> V) (sem_call : ident -> list V -> V) (sem_array : list V -> V)
+  (sem_access : V -> list (access V) -> V) (sem_update : V -> list (access V) -> V -> V)
+  (sem_phi : list pcT -> list (vname * V) -> V) (sem_undef : V) (truthy : V -> bool)
+  (g : cfg) (br : branches) (ment : stmt -> bool) (res : result) (f : finding)
+  (dep : vname -> vname -> Prop) :
+  (forall es, exported_sinks g (t_edges (run_taint_analysis g br)) = Ok es ->
+              forall a b, In a es -> dep a b -> In b es) ->
+  ment_sound_by g dep ment ->
+  exported_targets_declared g = true ->
+  run_side_effect_analysis g br = Ok res ->
+  In f (r_findings res) ->
+  f_kind f = FVarNoSideEffect \/ f_kind f = FParamNoSideEffect ->
+  noninterference vname V pcT vname_eq_dec
+    (ssa_prog V sem_num sem_infix sem_prefix sem_switch sem_call sem_array sem_access sem_update sem_phi
+              sem_undef truthy g ment) (f_var f).
+Proof.
+  intros Hdep Hment Hwf Hrun Hf Hkind.
+  unfold run_side_effect_analysis, run_side_effect_analysis_with in Hrun.
+  apply bind_Ok in Hrun. destruct Hrun as [snk [Hsnk Hrun]].
+  apply bind_Ok in Hrun. destruct Hrun as [fs1 [Hfs1 Hrun]].
+  apply bind_Ok in Hrun. destruct Hrun as [fs2 [Hfs2 Hrun]].
+  injection Hrun as <-. cbn [r_findings] in Hf. apply in_app_or in Hf. destruct Hf as [Hf|Hf].
+  - apply In_somes in Hf. destruct (mapM_Ok_In_rev _ _ _ Hfs1 _ Hf) as [d [_ Hd]].
+    destruct (definition_finding_nse _ _ _ _ _ _ Hd Hkind) as [-> Hno].
+    eapply ni_generic with (T := tedge (t_edges (run_taint_analysis g br))) (S := fun n => In n snk).
+    + apply prog_wf.
+    + intros r y. apply model_taint_has_data_edges.
+    + intros s. apply model_sinks_cover_required with (br := br) (dep := dep); assumption.
+    + apply no_taint_no_rel. assumption.
+  - exfalso. apply In_somes in Hf. destruct (mapM_Ok_In_rev _ _ _ Hfs2 _ Hf) as [kt [_ Hk]].
+    apply signal_finding_kind in Hk. destruct Hkind as [H|H], Hk as [H'|H']; congruence.
+Qed.
+
+(* data dependence only: no condition on the branch regions *)
 Theorem noninterference_of_claims
   (V : Type) (sem_num : Z -> V) (sem_infix : infix_op -> V -> V -> V) (sem_prefix : prefix_op -> V -> V)
   (sem_switch : V -> V -> V -> V) (sem_call : ident -> list V -> V) (sem_array : list V -> V)
@@ -492,21 +550,9 @@ Theorem noninterference_of_claims
     (ssa_prog V sem_num sem_infix sem_prefix sem_switch sem_call sem_array sem_access sem_update sem_phi
               sem_undef truthy g ment) (f_var f).
 Proof.
-  intros Hment Hwf Hrun Hf Hkind.
-  unfold run_side_effect_analysis, run_side_effect_analysis_with in Hrun.
-  apply bind_Ok in Hrun. destruct Hrun as [snk [Hsnk Hrun]].
-  apply bind_Ok in Hrun. destruct Hrun as [fs1 [Hfs1 Hrun]].
-  apply bind_Ok in Hrun. destruct Hrun as [fs2 [Hfs2 Hrun]].
-  injection Hrun as <-. cbn [r_findings] in Hf. apply in_app_or in Hf. destruct Hf as [Hf|Hf].
-  - apply In_somes in Hf. destruct (mapM_Ok_In_rev _ _ _ Hfs1 _ Hf) as [d [_ Hd]].
-    destruct (definition_finding_nse _ _ _ _ _ _ Hd Hkind) as [-> Hno].
-    eapply ni_generic with (T := tedge (t_edges (run_taint_analysis g br))) (S := fun n => In n snk).
-    + apply prog_wf.
-    + intros r y. apply model_taint_has_data_edges.
-    + intros s. apply model_sinks_cover_required with (br := br); assumption.
-    + apply no_taint_no_rel. assumption.
-  - exfalso. apply In_somes in Hf. destruct (mapM_Ok_In_rev _ _ _ Hfs2 _ Hf) as [kt [_ Hk]].
-    apply signal_finding_kind in Hk. destruct Hkind as [H|H], Hk as [H'|H']; congruence.
+  intros Hment. apply noninterference_of_claims_by with (dep := ddep g).
+  - intros es Hes. eapply ddep_closed. exact Hes.
+  - exact Hment.
 Qed.
 
 (* ------------------------------------------------------------------ *)
@@ -594,7 +640,5 @@ Proof.
         unfold csig_on_signals in Hcs. rewrite forallb_forall in Hcs. specialize (Hcs blk Hblk).
         rewrite forallb_forall in Hcs. specialize (Hcs _ Hs). cbn beta iota in Hcs.
         destruct op; try discriminate Hc.
-        eapply Hnoread; try eassumption.
-        unfold stmt_reads. destruct st; cbn in Hcs; try discriminate; cbn [stmt_uses s_reads];
-          apply In_uses_app; right; unfold uses_names; cbn; left; reflexivity.
+        apply vmem_In in Hcs. eapply Hnoread; eassumption.
 Qed.
